@@ -13,9 +13,9 @@ TABLE = {
         ('peer', 'invariant pos <= range.count: pos starts at 0, grows by 1 per yielded item and next() stops at pos == count'),
     '<rodbus::retry::Doubling as rodbus::retry::RetryStrategy>::after_failed_connect | arith-trait | <u32 as core::ops::arith::Mul<core::time::Duration>>::mul(2, *self.current)':
         ('config', '2 * current delay: current <= configured max delay (configuration; overflows only for max > Duration::MAX / 2)'),
-    '<rodbus::server::response::BitWriter<T> as rodbus::common::traits::Serialize>::serialize | assert | Overflow:Add(num_bits, 1)':
+    '<rodbus::server::response::BitWriter<T> as rodbus::common::traits::Serialize>::serialize | assert | Overflow:Add(var:usize, 1)':
         ('peer', 'num_bits is reset to 0 when it reaches 8 (C01/R01.13)'),
-    '<rodbus::server::response::BitWriter<T> as rodbus::common::traits::Serialize>::serialize | assert | Overflow:Shl(1, num_bits)':
+    '<rodbus::server::response::BitWriter<T> as rodbus::common::traits::Serialize>::serialize | assert | Overflow:Shl(1, var:usize)':
         ('peer', 'bit position < 8: the position restarts for every byte (C01/R01.13, C03/R03.7)'),
     '<rodbus::types::BitIterator as core::iter::traits::iterator::Iterator>::next | assert | Overflow:Add(*self.pos, 1)':
         ('peer', 'pos < range.count <= 65535 here (the pos == count guard returned None before), so pos + 1 fits u16'),
